@@ -1,6 +1,7 @@
 package main
 
 import (
+	"sync/atomic"
 	"bytes"
 	"fmt"
 	"net"
@@ -23,11 +24,10 @@ func init() {
 // (full text, used only to compare the implementation with itself on twins).
 // dirtyN varies what the destination of a getter holds before the call: nothing, a longer previous
 // value, a shorter one, an empty value with spare capacity.  The result must not depend on it.
-var dirtyN int
+var dirtyN atomic.Int64
 
 func dirtyBytes() []byte {
-	dirtyN++
-	switch dirtyN % 5 {
+	switch dirtyN.Add(1) % 5 {
 	case 0:
 		return nil
 	case 1:
@@ -42,8 +42,7 @@ func dirtyBytes() []byte {
 }
 
 func dirtyIP() net.IP {
-	dirtyN++
-	switch dirtyN % 5 {
+	switch dirtyN.Add(1) % 5 {
 	case 0:
 		return nil
 	case 1:
@@ -134,7 +133,7 @@ func getterResult(g, t int, key []byte, m *stun.Message) (obs []int, errText str
 				val = append([]int{int(a.Code), len(a.Reason)}, intsOf(a.Reason)...)
 			}
 		case 5:
-			a := stun.UnknownAttributes{1, 2, 3, 4, 5, 6, 7, 8, 9}[:dirtyN%10]
+			a := stun.UnknownAttributes{1, 2, 3, 4, 5, 6, 7, 8, 9}[:dirtyN.Load()%10]
 			err = a.GetFrom(m)
 			if err == nil {
 				val = []int{len(a)}
